@@ -49,6 +49,19 @@ def run(ctx):
     ctx.cov["originals_accepted"] = accepted
     good = [(s, b) for (s, b), c in zip(chosen, p0) if c.startswith("ok ")]
 
+    # 0b. nvm_crc32 itself, model vs implementation: all 256 single bytes, all lengths 0..40, file bodies
+    clines = ["crc " + common.hexs(bytes([x])) for x in range(256)]
+    clines += ["crc " + common.hexs(bytes(rng.getrandbits(8) for _ in range(n))) for n in range(0, 41)]
+    clines += ["crc " + common.hexs(bytes([0xFF] * n)) for n in (1, 2, 3, 4, 5, 7, 8)]
+    clines += ["crc " + common.hexs(b[H:]) for _, b in good[:8]]
+    mc = common.batch(driver, clines, timeout=600)[0]
+    pc = common.batch_robust(probe, clines, env=env)
+    for l, a, c in zip(clines, mc, pc):
+        ctx.case(l)
+        if a != c:
+            disagreements.append((l[:80], a, c))
+    ctx.cov["crc_compared"] = len(clines)
+
     # 1. implementation oracle, exhaustive single-bit flips + every truncation + sampled bursts
     nb = 2000 if quick else 20000
     lines, meta = [], []
@@ -56,14 +69,20 @@ def run(ctx):
         lines.append("nvm.flipall " + b.hex()); meta.append(("flip", s, b))
         lines.append("nvm.truncall " + b.hex()); meta.append(("trunc", s, b))
         lines.append("nvm.bursts %d %d %s" % (ctx.seed, nb, b.hex())); meta.append(("burst", s, b))
+    # every error pattern confined to one byte, every body byte (all aligned bursts <= 8 bits): small files
+    # in the quick tier, all files when a proof obligation or the translator broke (search) and in thorough
+    deep = (not info["ok"]) or not quick
+    for s, b in (good if deep else good[:6]):
+        if len(b) <= (1500 if quick and not deep else 6000):
+            lines.append("nvm.bytexor " + b.hex()); meta.append(("bytexor", s, b))
     rep = common.batch_robust(probe, lines, timeout=3000, env=env)
-    tot = {"flip": 0, "trunc": 0, "burst": 0}
+    tot = {"flip": 0, "trunc": 0, "burst": 0, "bytexor": 0}
     for (kind, s, b), r in zip(meta, rep):
         w = dict(x.split("=") for x in r.split()) if "=" in r and not r.startswith("CRASH") else None
         if w is None:
             oracle_fail.append({"file": s, "op": kind, "impl": r, "why": "implementation crashed or malformed reply", "file_hex": b.hex()})
             continue
-        n = int(w.get("flips", w.get("truncations", w.get("bursts", 0))))
+        n = int(w.get("flips", w.get("truncations", w.get("bursts", w.get("bytexor", 0)))))
         tot[kind] += n
         ctx.evals += n
         if int(w["accepted"]) != 0:
@@ -72,6 +91,7 @@ def run(ctx):
     ctx.cov["single_bit_flips_exhaustive"] = tot["flip"]
     ctx.cov["truncation_lengths_exhaustive"] = tot["trunc"]
     ctx.cov["bursts_sampled"] = tot["burst"]
+    ctx.cov["single_byte_patterns_exhaustive"] = tot["bytexor"]
     ctx.cov["exhaustive"] = False
 
     # 2. correspondence on individual damaged files (model vs implementation), incl. adversarial tails
@@ -106,9 +126,18 @@ def run(ctx):
             pre = bytes(rng.getrandbits(8) for _ in range(3))
             t2 = C.patch(C.raw(body + pre), reg)
             cases.append(("crc-preserving-tail", s, b + pre + t2))
-        # header faults
+        # header faults: one random flip in magic and version per file ...
         d = bytearray(b); d[rng.randrange(0, 4)] ^= 1 << rng.randrange(8); cases.append(("magic", s, bytes(d)))
         d = bytearray(b); d[rng.randrange(4, 8)] ^= 1 << rng.randrange(8); cases.append(("version", s, bytes(d)))
+    # ... and exhaustively on the smallest file: all 64 single-bit flips of magic+version, version 0/2/0xFFFFFFFF, section count 17
+    if good:
+        s, b = good[0]
+        for bit in range(64):
+            d = bytearray(b); d[bit // 8] ^= 1 << (bit % 8); cases.append(("magic" if bit < 32 else "version", s, bytes(d)))
+        for v in (0, 2, 0x100, 0xFFFFFFFF):
+            cases.append(("version", s, b[:4] + v.to_bytes(4, "little") + b[8:]))
+        for cnt in (17, 255, 0xFFFFFFFF):
+            cases.append(("section-count", s, crcutil.fix_checksum(b[:16] + cnt.to_bytes(4, "little") + b[20:], P, C)))
     lines = ["nvm.load " + common.hexs(d) for _, _, d in cases]
     md = common.batch(driver, lines, timeout=3000)[0]
     pd = common.batch_robust(probe, lines, env=env)
@@ -153,7 +182,7 @@ def run(ctx):
     if not oracle_fail:
         if not info["ok"]:
             ctx.violation({"kind": "proof-obligation", "theorem_module": MODULE, "broken": info["broken"],
-                           "searched": "flips=%d truncations=%d bursts=%d variants=%d on the implementation, none accepted" % (tot["flip"], tot["trunc"], tot["burst"], len(cases))}, no_input=True)
+                           "searched": "flips=%d truncations=%d bursts=%d single-byte-patterns=%d variants=%d on the implementation, none accepted" % (tot["flip"], tot["trunc"], tot["burst"], tot["bytexor"], len(cases))}, no_input=True)
         elif disagreements:
             ctx.violation({"kind": "correspondence", "which": "nvm.load model != implementation",
                            "first": [list(x) for x in disagreements[:5]], "count": len(disagreements)}, no_input=True)
